@@ -47,3 +47,18 @@ Proof.
   { apply N.eqb_neq. intros Hc. apply Hk. apply code_inj. lia. }
   rewrite Hc. cbn [negb]. eauto.
 Qed.
+
+(* the first size guard of every decoder, as a table (tied to the source by Generated/TieGuards.v) *)
+Definition size_guard (k: kind) : bool * nat :=
+  match k with
+  | KBootloaderHello | KProgrammerHello | KAck | KGatewayDiscover => (true, 4%nat)
+  | KStartFirmware | KStartConfig => (true, 8%nat)
+  | KConfiguratorHello | KSystemTick => (true, 2%nat)
+  | KButtonPressed | KButtonReleased => (true, 5%nat)
+  | KSetAddress | KRelaySet => (true, 6%nat)
+  | KMessage => (true, 14%nat)
+  | KData => (false, 6%nat) | KBcmChange => (false, 7%nat) | KBcmAnimate => (false, 11%nat)
+  end.
+Definition guard_fn (g: bool * nat) : nat -> bool := if fst g then eqn (snd g) else gen (snd g).
+Lemma decode_guard k p : exists body: out event cerr, decode k p = pre (guard_fn (size_guard k)) k p body.
+Proof. destruct k; cbn [decode size_guard guard_fn fst snd]; eauto. Qed.
